@@ -8,6 +8,24 @@ from ..expression import ast as sugar
 from . import ast as desugar
 
 
+def indexes_of_every_term(self: sugar.Expression) -> set[str]:
+    """The indexes that appear in every additive term of the expanded expression.
+
+    A contraction can only be hoisted over an addition if every term being added depends on the
+    contracted index. Otherwise, a term that does not have the index would be summed once for each
+    value of the index rather than being added once.
+    """
+    match self:
+        case sugar.Add() | sugar.Subtract():
+            return indexes_of_every_term(self.left) & indexes_of_every_term(self.right)
+        case sugar.Multiply():
+            return indexes_of_every_term(self.left) | indexes_of_every_term(self.right)
+        case sugar.Tensor():
+            return set(self.indexes)
+        case _:
+            return set()
+
+
 @singledispatch
 def desugar_expression(
     self: sugar.Expression, contract_indexes: set[str], ids: Iterator[int]
@@ -46,7 +64,10 @@ def desugar_add(
     left_indexes = set(self.left.index_participants().keys()).intersection(contract_indexes)
     right_indexes = set(self.right.index_participants().keys()).intersection(contract_indexes)
 
-    intersection_indexes = left_indexes.intersection(right_indexes)
+    # Only hoist a contraction over the addition if every term on both sides has the index
+    intersection_indexes = left_indexes.intersection(right_indexes).intersection(
+        indexes_of_every_term(self)
+    )
 
     output = desugar.Add(
         desugar_expression(self.left, left_indexes - intersection_indexes, ids),
@@ -66,7 +87,10 @@ def desugar_subtract(
     left_indexes = set(self.left.index_participants().keys()).intersection(contract_indexes)
     right_indexes = set(self.right.index_participants().keys()).intersection(contract_indexes)
 
-    intersection_indexes = left_indexes.intersection(right_indexes)
+    # Only hoist a contraction over the addition if every term on both sides has the index
+    intersection_indexes = left_indexes.intersection(right_indexes).intersection(
+        indexes_of_every_term(self)
+    )
 
     output = desugar.Add(
         desugar_expression(self.left, left_indexes - intersection_indexes, ids),
